@@ -146,7 +146,7 @@ struct SPeer {
   std::deque<Req> pending;
   int lib_fd = -1;          // library-side descriptor seen at the 'pre' observation
   uint64_t lib_ino = 0;     // ... and its socket inode (descriptor numbers are reused)
-  uint64_t piece_bytes_rx = 0;
+  bool partial_reported = false;
 };
 
 struct Step {
@@ -168,6 +168,8 @@ struct Ctx {
   int harness_socks_base = 0;
   bool removed = false;
   std::string cur_piece_msg[4];   // the PIECE message a peer is in the middle of (pp then pr)
+  uint32_t cur_piece_idx[4] = {0, 0, 0, 0};
+  std::string completed;          // completed bitfield as last seen (public API)
 };
 
 static int harness_sockets(Ctx& c) {
@@ -277,7 +279,7 @@ static std::string glob(Ctx& c, const KernelView& kv) {
     << ",rm" << rm->currently_upload_unchoked() << "/" << rm->currently_download_unchoked()
     << ",tu" << torrent::manager->upload_throttle()->throttle_list()->size()
     << ",td" << torrent::manager->download_throttle()->throttle_list()->size()
-    << ",sk" << (int)torrent::runtime::socket_manager()->size() - (int)c.base_sm
+    << ",sk" << (int)torrent::runtime::socket_manager()->category_managed_size(torrent::runtime::category_generic) - (int)c.base_sm
     << "~ks" << (kv.sockets - harness_sockets(c)) - (c.base.sockets - c.harness_socks_base)
     << ",ke" << kv.epoll_entries - c.base.epoll_entries;
   return o.str();
@@ -322,6 +324,8 @@ static void parse_wire(Ctx& c) {
         break;
       case WirePeer::PIECE: {
         uint32_t i = m.u32(0), b = m.u32(4), l = (uint32_t)m.body.size() - 8;
+        if (!p.partial_reported) c.ev.push_back("L" + std::to_string(p.id) + ":ps:" + std::to_string(i));
+        p.partial_reported = false;
         bool ok = i < c.T->piece_count() && (uint64_t)b + l <= c.T->piece_size(i) && m.body.compare(8, l, c.T->range(i, b, l)) == 0;
         e += "pc:" + std::to_string(i) + ":" + std::to_string(b) + (ok ? "" : ":BAD");
         if (!ok) c.viol.push_back("served-wrong-bytes");
@@ -332,6 +336,20 @@ static void parse_wire(Ctx& c) {
       }
       c.ev.push_back(e);
     }
+    // the first 13 bytes of a PIECE message are on the wire: the library has mapped the chunk it serves from
+    if (!p.partial_reported && p.w.rx.size() >= 13 && (unsigned char)p.w.rx[4] == WirePeer::PIECE) {
+      const unsigned char* q = (const unsigned char*)p.w.rx.data() + 5;
+      uint32_t i = (uint32_t(q[0]) << 24) | (uint32_t(q[1]) << 16) | (uint32_t(q[2]) << 8) | q[3];
+      c.ev.push_back("L" + std::to_string(p.id) + ":ps:" + std::to_string(i));
+      p.partial_reported = true;
+    }
+  }
+  if (!c.removed) {
+    std::string bits = c.T->completed_bits();
+    if (c.completed.size() == bits.size())
+      for (size_t i = 0; i < bits.size(); i++)
+        if (bits[i] == '1' && c.completed[i] != '1') c.ev.push_back("D:" + std::to_string(i));
+    c.completed = bits;
   }
 }
 
@@ -457,6 +475,7 @@ static std::string step_bytes(Ctx& c, const Step& st) {
     std::string d = T->range(r.idx, r.off, PLEN);
     if (k == "bad") d[10] = char(d[10] ^ 0x33);
     std::string m = WirePeer::piece(r.idx, r.off, d);
+    c.cur_piece_idx[st.peer] = r.idx;
     if (k == "pp") { c.cur_piece_msg[st.peer] = m; return m.substr(0, 113); }
     return m;
   }
@@ -478,12 +497,12 @@ static bool do_action(Ctx& c, const Step& st) {
     if (!p.w.connect_to(c.S->listen_port(), p.ip.c_str(), 1 << 20, 1 << 20)) return false;
     p.port = p.w.local_port();
     p.connected_h = true;
-    c.ev.push_back("C" + std::to_string(p.id) + "i");
+    c.ev.push_back("C" + std::to_string(p.id) + (p.ext ? "ix" : "i"));
     pump_all(c);
   } else if (st.kind == "out") {
     p.port = p.w.listen_on(p.ip.c_str());
     if (p.port == 0) return false;
-    c.ev.push_back("O" + std::to_string(p.id));
+    c.ev.push_back("O" + std::to_string(p.id) + (p.ext ? "x" : ""));
     c.S->connect_out(c.T, p.ip, p.port);
     pump_all(c);
   } else if (!st.kind.compare(0, 7, "budget:")) {
@@ -639,6 +658,7 @@ static std::string run_case(const std::string& line) {
   c.T = S.add_torrent(spec);
   if (c.T->completed_bits() != sc.have) { S.remove(c.T); return "ERR:hashcheck " + c.T->completed_bits(); }
   S.start(c.T);
+  c.completed = c.T->completed_bits();
   for (int i = 0; i < sc.npeers; i++) {
     auto p = std::make_unique<SPeer>();
     p->id = i;
@@ -648,7 +668,15 @@ static std::string run_case(const std::string& line) {
     c.peers.push_back(std::move(p));
   }
   c.base = kernel_view();
-  c.base_sm = torrent::runtime::socket_manager()->size();
+  for (int i = 0; i < 6; i++) {   // the baseline must be a quiescent view (no transient descriptor of another thread)
+    usleep(300);
+    S.step();
+    KernelView again = kernel_view();
+    bool same = again.sockets == c.base.sockets && again.epoll_entries == c.base.epoll_entries;
+    c.base = again;
+    if (same) break;
+  }
+  c.base_sm = torrent::runtime::socket_manager()->category_managed_size(torrent::runtime::category_generic);
   c.harness_socks_base = harness_sockets(c);
   S.avoid_tick_within(20 * 1000000);
 
@@ -670,7 +698,16 @@ static std::string run_case(const std::string& line) {
       continue;
     }
     p.w.send_bytes(bytes.substr(0, allow));
-    c.ev.push_back("B" + std::to_string(p.id) + ":" + st.kind + ":" + std::to_string(allow) + "/" + std::to_string(bytes.size()));
+    {
+      std::string kind = st.kind;
+      uint32_t n = allow, len = (uint32_t)bytes.size();
+      if (kind == "pc" || kind == "pp" || kind == "bad" || kind == "pr") {
+        len = PIECE_MSG;
+        if (kind == "pr") n += 113;
+        kind += "@" + std::to_string(c.cur_piece_idx[st.peer]);
+      }
+      c.ev.push_back("B" + std::to_string(p.id) + ":" + kind + ":" + std::to_string(n) + "/" + std::to_string(len));
+    }
     consumed += allow;
     pump_all(c);
     if (st.kind == "pc" || st.kind == "pr" || st.kind == "bad") wait_hash(c);
@@ -682,6 +719,7 @@ static std::string run_case(const std::string& line) {
     if (p->w.fd != -1 && p->w.eof) c.ev.push_back("E" + std::to_string(p->id));   // the library hung up on the peer
 
   std::string pre = ledger(c, true);
+  c.ev.push_back("F");
   close_window_begin();
 
   // ---- the fault
@@ -723,6 +761,7 @@ static std::string run_case(const std::string& line) {
     _exit(0);
   }
   post = ledger(c);
+  c.ev.push_back("G");
   // descriptors: each library-side descriptor that existed before the fault and is gone now was closed exactly once
   std::string cl;
   {
